@@ -297,6 +297,32 @@ func runCrashWorkload(base string, w c05workload, rep *hx.Report, cf *hx.CasesFi
 		for si, sd := range snaps {
 			rep.Evaluations++
 			rep.Count("snapshot")
+			// atomic replacement: whatever is found under a sidecar's FINAL name at any
+			// instant is a complete valid version (the previous one or the new one), never
+			// a torn or empty file
+			if ents, err := os.ReadDir(filepath.Join(sd, ".thruflux_resumedata")); err == nil {
+				for _, e := range ents {
+					if !strings.HasSuffix(e.Name(), ".sbxmap") {
+						continue
+					}
+					full := filepath.Join(sd, ".thruflux_resumedata", e.Name())
+					if _, lerr := transfer.LoadSidecar(full); lerr != nil {
+						st, _ := os.Stat(full)
+						var size int64 = -1
+						if st != nil {
+							size = st.Size()
+						}
+						ev := "?"
+						for _, x := range events {
+							if x.snap == si {
+								ev = x.name
+							}
+						}
+						rep.Violate("metadata-not-atomic", fmt.Sprintf("snapshot %d (taken at %s) of run from %s: %s exists under its final name but is not a valid sidecar (%d bytes: %v) - a kill here loses the previous valid version (workload %+v)", si, ev, p.label, e.Name(), size, lerr, w),
+							map[string]any{"workload": fmt.Sprintf("%+v", w), "from": p.label, "snapshot": si, "taken_at": ev, "sidecar": e.Name()})
+					}
+				}
+			}
 			for _, sv := range loadSidecars(sd) {
 				rel, ok := idToRel[sv.fileID]
 				if !ok {
